@@ -260,14 +260,19 @@ fn g_racket() -> BS<(Case, &'static str)> {
 /// nesting construct: what the parser still accepts there must still be
 /// readable once printed (the printer spells shorthands out as lists).
 fn g_near_limit() -> BS<(Case, &'static str)> {
-    (vec(0u8..9, 118..=130), g_qopt_index(), any::<bool>(), 0u8..9)
-        .prop_map(|(kinds, q, uniform, last)| {
+    // the innermost datum: atoms whose printed form may be spelled with other
+    // tokens than the input (nil / t / #nil under the various nil and t
+    // treatments print as (), #t, nil ...), empty containers, and plain atoms
+    let inner = proptest::sample::select(vec!["x", "nil", "t", "()", "#()", "#nil", "#t", "\"s\"", "#u8(1)", "#u8()", "1.5", ":k", "(a)", "'q"]);
+    (vec(0u8..9, 118..=130), g_qopt_index(), any::<bool>(), 0u8..9, inner)
+        .prop_map(|(kinds, q, uniform, last, inner)| {
             let mut kinds = if uniform { vec![kinds[0]; kinds.len()] } else { kinds };
             // the innermost construct decides which rule draws the line
             if let Some(k) = kinds.last_mut() {
                 *k = last;
             }
             let (text, _) = crate::props::c03::nest_text(&crate::props::c03::Nest { kinds, q });
+            let text = text.replacen('x', inner, 1);
             (Case { text: text.into_bytes(), q }, "near-limit-nesting")
         })
         .boxed()
